@@ -1075,8 +1075,27 @@ def _kernel_job(sub, job):
     except OutsideSubset as exc:
         if getattr(exc, "reported", False):
             return
+        # the kernel text left the shape the contract is stated over: nothing is proved; before reporting
+        # "undecided" the compiled kernel is compared with the defining sum on the standard replay meshes, so that a
+        # restructured kernel that computes something else is reported with its failing input
+        from contracts import kernel_replay
+        where = "generated:%s_%s" % (model, kind)
+        hunts = []
+        if kind in ("Iq", "Iqxy"):
+            hunts.append(lambda: kernel_replay.replay(model, kind))
+            if kind == "Iq":
+                hunts.append(kernel_replay.replay_valid_region)
+        for h in hunts:
+            try:
+                rep, info = h()
+            except Exception as err:      # noqa
+                rep, info = False, {"note": "replay adapter raised %r" % (err,)}
+            if rep:
+                sub.fail("%s.kernel.%s.%s.engine.defining_sum_on_the_compiled_kernel" % (prop, model, kind),
+                         {"engine": "outside subset: %s" % exc, "replay": info}, function=where, engine="cvc")
+                return
         sub.undecided("%s.kernel.%s.%s.engine" % (prop, model, kind), "outside subset: %s" % exc,
-                      function="generated:%s_%s" % (model, kind), engine="cvc")
+                      function=where, engine="cvc")
 
 
 def all_kernels():
